@@ -21,6 +21,7 @@ class Prop(BaseProp):
                 "C11_rejects_other_prefix", "C11_rejects_wrong_constant", "C11_padding_canonical",
                 "C11_bch_detects", "C11_detects_le4", "C11_substitution_refused", "C11_substitution4_refused"]
     exec_modules = ["Exec.C11"]
+    extra_modules = {"C11Src": ["C11_source_is_model", "C11_source_decode_encode", "C11_source_decode_sound", "C11_source_substitution_refused", "C11_source_rejects", "C11_source_all_translated"]}
     pysem_funcs = ['bech32.bech32_polymod', 'bech32.bech32_hrp_expand', 'bech32.bech32_verify_checksum', 'bech32.bech32_create_checksum', 'bech32.bech32_encode', 'bech32.bech32_decode', 'bech32.convertbits', 'bech32.decode', 'bech32.encode', 'helper.h160_to_p2wpkh_address', 'helper.h256_to_p2wsh_address']
     exec_import = "From BHW Require Import Lib.Base Exec.Common Exec.C11.\nFrom Coq Require Import String.\nOpen Scope string_scope."
     shard = 120
